@@ -1532,6 +1532,35 @@ def c06_join_assoc(env, ob):
     return trace_obligation(env, ob, ctx, res, bad, "join associativity redistributes the wrong conditions", cuts_ok=True)
 
 
+@obligation(id="C06.index_scan_is_exhaustive", funcs="IndexScan::next",
+            bounds="every path of IndexScan::next through <= 2 index entries; tree / predicate calls uninterpreted",
+            native="c06_composite_index_upper_bound")
+def c06_index_scan_exhaustive(env, ob):
+    """The index range bounds are evaluated per entry (they may constrain non-leading key columns, whose values are not
+    monotone along the index), so the scan may only end when the cursor is exhausted; and an entry is dropped only after
+    the visibility read, the index predicate or the residual predicate said so."""
+    ctx, f, args, res = explore(env, "runtime/ops/index_scan.rs", "next", loop_bound=2)
+
+    def bad(path, rv):
+        if path.panics or rv is None:
+            return None
+        # Ok(None)?
+        okv = rv.variants.get("Ok")
+        if okv is None or not isinstance(okv.val, Agg):
+            return None
+        inner = okv.val.fields.get("0")
+        iv = inner.val if inner is not None else None
+        if not isinstance(iv, Agg) or iv.disc is None or mirsmt.const_of(iv.disc.term) != 0:
+            return None
+        nxt = [e for e in path.events if re.search(r"BtreePositionalIterator.* as Iterator>::next$", e["callee"])]
+        if not nxt:
+            return None                       # cursor absent (empty index)
+        last = nxt[-1]["ret"]
+        exhausted = f"(= {last.get_disc().term} {bvconst(0, 64)})"
+        return ("scan_ends_before_the_index_cursor_is_exhausted", f"(not {exhausted})")
+    return trace_obligation(env, ob, ctx, res, bad, "IndexScan::next returns None although the cursor still has entries", cuts_ok=True)
+
+
 # ---------------------------------------------------------------------------------------------------------------------
 # C07: constraint decisions (NOT NULL / UNIQUE) and their place in the DML paths
 # ---------------------------------------------------------------------------------------------------------------------
